@@ -185,7 +185,41 @@ func genHostileExpr(t *rapid.T, depth int) (interface{}, string) {
 }
 
 func genChainOp(t *rapid.T, healthyPossible bool) chainOp {
-	switch rapid.IntRange(0, 27).Draw(t, "op") {
+	switch rapid.IntRange(0, 28).Draw(t, "op") {
+	case 28:
+		// argument values of the right Go type that still are no valid comparison values: NaN for a float column
+		// (documented as an error under every comparator), and []interface{} in-lists whose elements are not all of the
+		// column's type (wherever in the list the odd one stands)
+		k := rapid.IntRange(0, 9).Draw(t, "badarg")
+		comp := rapid.SampledFrom([]string{"=", "!=", "<", "<=", ">", ">="}).Draw(t, "nancomp")
+		inv := rapid.Bool().Draw(t, "badarginv")
+		var f qframe.Filter
+		switch k {
+		case 0, 1, 2:
+			f = qframe.Filter{Column: "tf", Comparator: comp, Arg: math.NaN()}
+		case 3:
+			f = qframe.Filter{Column: "ts", Comparator: "in", Arg: []interface{}{"a", 1}}
+		case 4:
+			f = qframe.Filter{Column: "ts", Comparator: "in", Arg: []interface{}{"a", "b", nil, "c"}}
+		case 5:
+			f = qframe.Filter{Column: "ts", Comparator: "in", Arg: []interface{}{1, "a"}}
+		case 6:
+			f = qframe.Filter{Column: "ti", Comparator: "in", Arg: []interface{}{1, "a"}}
+		case 7:
+			f = qframe.Filter{Column: "ti", Comparator: "in", Arg: []interface{}{"a", 1}}
+		case 8:
+			f = qframe.Filter{Column: "ti", Comparator: "in", Arg: []interface{}{1, 2, true}}
+		default:
+			f = qframe.Filter{Column: "ts", Comparator: "in", Arg: []interface{}{"x", 2.5, "y"}}
+		}
+		f.Inverse = inv
+		return chainOp{desc: fmt.Sprintf("filter with an invalid argument value: %s", f.String()), mustErr: true, run: func(qf qframe.QFrame) qframe.QFrame {
+			tq := qf.Apply(qframe.Instruction{Fn: 1, DstCol: "ti"}, qframe.Instruction{Fn: 1.5, DstCol: "tf"}, qframe.Instruction{Fn: "x", DstCol: "ts"})
+			if tq.Err != nil {
+				return tq
+			}
+			return tq.Filter(f)
+		}}
 	case 27:
 		// column against column with a comparator no column type has, or a two-argument predicate function whose
 		// argument is not a column of the same type: an error for every column type
